@@ -5,7 +5,7 @@
    the record and grows along every cycle of slides; identifying positions up to the ply counter needs the congruence that
    is also missing for the two _partial PN corollaries.) *)
 From Coq Require Import NArith ZArith List Bool Lia.
-Require Import Board Move GameOver Eval Search AndOr Pn PnFacts Dfpn DfpnFacts.
+Require Import Board Move GameOver Eval Search AndOr Pn PnFacts Dfpn DfpnFacts DfpnFactsL.
 Require Import Generated.Consts.
 Import ListNotations.
 Open Scope N_scope.
@@ -139,4 +139,43 @@ Proof.
     destruct (solve p); [|now contradiction Hs]. apply orb_true_iff in H as [H|H]; [rewrite Ha in H; discriminate|]. exists 1%nat. exact H.
   - assert (Hin : existsb (pos_eqb root0) reach0 = true) by (vm_compute; reflexivity).
     apply existsb_exists in Hin as (r & Hr & Hq). apply pos_eqb_eq in Hq. subst r. exact Hr.
+Qed.
+
+(* ---------- the same set with attacker White: DFPN disproves the start position without meeting a repetition, and
+   dfpn_disproven_sound_norep turns that into "White has no forced win" ---------- *)
+Definition aw1 : bool := true.
+Lemma live_term1 p : live p = true <-> terminal aw1 p = None.
+Proof.
+  unfold live, terminal. destruct (game_over p) as [[[|] who]|]; split; auto; try discriminate;
+    destruct who; cbn; intros; discriminate.
+Qed.
+Definition chk_threats_def : bool :=
+  forallb (fun p => negb (live p) || match solve p with None => true | Some _ => attp aw1 p || existsb (fun q => match terminal aw1 q with Some false => true | _ => false end) (succs gen_basis p) end) reach0.
+Lemma chk_threats_def_ok : chk_threats_def = true. Proof. vm_compute. reflexivity. Qed.
+
+Example dfpn_disproven_sound_applies :
+  (let '(s, e, _) := prove gen_basis aw1 1000 1000 16 root0 in result_of aw1 root0 e = 2 /\ ds_rep (dst s) = 0) /\
+  forall n, wn position (succs gen_basis) (terminal aw1) (attp aw1) n root0 = false.
+Proof.
+  assert (Hrun : let '(s, e, _) := prove gen_basis aw1 1000 1000 16 root0 in result_of aw1 root0 e = 2 /\ ds_rep (dst s) = 0) by (vm_compute; split; reflexivity).
+  split; [exact Hrun|].
+  destruct (prove gen_basis aw1 1000 1000 16 root0) as [[s e] w] eqn:E. destruct Hrun as [Hr Hrep].
+  apply (dfpn_disproven_sound_norep gen_basis aw1 Sp0) with (lfuel := 1000%nat) (dfuel := 1000%nat) (entries := 16%nat) (s := s) (e := e) (w := w);
+    try assumption.
+  - intros p m q Hp Ht Hm Eq. pose proof chk_step_ok as H. unfold chk_step in H. rewrite forallb_forall in H.
+    specialize (H p Hp). apply orb_true_iff in H as [H|H]; [apply negb_true_iff in H; apply live_term1 in Ht; congruence|].
+    rewrite forallb_forall in H. specialize (H m Hm). unfold Dfpn.dmv in Eq. unfold Dfpn.dmv in H. rewrite Eq in H.
+    apply existsb_exists in H as (r & Hr' & Hq). apply pos_eqb_eq in Hq. subst q. exact Hr'.
+  - intros p Hp. pose proof chk_small_ok as H. unfold chk_small in H. rewrite forallb_forall in H. apply N.leb_le. now apply H.
+  - intros p q Hp Hq Eh. assert (p = q) by (eapply (nodupb_inj hash_of reach0 chk_hash_ok); eauto). subst q. repeat split; auto.
+  - intros p Hp. pose proof chk_nonzero_ok as H. unfold chk_nonzero in H. rewrite forallb_forall in H. specialize (H p Hp).
+    apply negb_true_iff in H. now apply N.eqb_neq.
+  - intros p Hp Ht. pose proof chk_moves_ok as H. unfold chk_moves in H. rewrite forallb_forall in H. specialize (H p Hp).
+    apply orb_true_iff in H as [H|H]; [apply negb_true_iff in H; apply live_term1 in Ht; congruence|]. destruct (all_moves p); [discriminate|discriminate].
+  - intros p Hp Ht Hs Ha. pose proof chk_threats_def_ok as H. unfold chk_threats_def in H. rewrite forallb_forall in H. specialize (H p Hp).
+    apply orb_true_iff in H as [H|H]; [apply negb_true_iff in H; apply live_term1 in Ht; congruence|].
+    destruct (solve p); [|now contradiction Hs]. apply orb_true_iff in H as [H|H]; [rewrite Ha in H; discriminate|].
+    apply existsb_exists in H as (q & Hq & Hqt). exists q. split; [assumption|]. destruct (terminal aw1 q) as [[|]|]; try discriminate. reflexivity.
+  - assert (Hin : existsb (pos_eqb root0) reach0 = true) by (vm_compute; reflexivity).
+    apply existsb_exists in Hin as (r & Hr' & Hq). apply pos_eqb_eq in Hq. subst r. exact Hr'.
 Qed.
